@@ -110,6 +110,15 @@ int main(int argc, char **argv) {
   if (!strcmp(m, "pause")) {
     for (;;) pause();
   }
+  if (!strcmp(m, "cat") && argc >= 3) { // copy a file to descriptor 1; exit 1 if it cannot be opened
+    int fd = open(argv[2], O_RDONLY);
+    if (fd < 0) _exit(1);
+    char b[4096];
+    ssize_t n;
+    while ((n = read(fd, b, sizeof b)) > 0)
+      if (write(1, b, n) < 0) _exit(2);
+    _exit(0);
+  }
   if (!strcmp(m, "pidwalk") && argc >= 3) {
     // walks the pid counter of this pid namespace (made small through pid_max) with forks that exit at once, until the
     // next process created will get pid P: first lap finds the pid handed out right before P, second lap stops there
